@@ -11,7 +11,9 @@
 //	     pre-signing gate called directly, Authority.Renew / Rekey of a certificate that
 //	     carries the names, and (DNS/IP-only names) GetTLSCertificate of an authority whose
 //	     configured dnsNames spell these names (IP literals also in the bracketed host form);
-//	     any difference is reported as "inconsistent:…"
+//	     any difference is reported as "inconsistent:…". In a quarter of the cases some of the
+//	     DNS names are not in the CSR but added by a certificate enforcer (WithX509Enforcers or a
+//	     CertificateEnforcer sign option): the gate must see the template as it is signed
 //	vfy  crypto/x509 Certificate.Verify (the independent standard verifier) on the certificate
 //	     the CA returned with the chain it returned and the configured root, or, when the CA
 //	     refused, on a leaf with the same names signed directly with the issuing CA's key
@@ -57,6 +59,22 @@ type Case struct {
 	// TLS (optional): the same DNS names and IPs as Names spelled as the CA's `dnsNames`
 	// configuration, for the GetTLSCertificate cross-check
 	TLS []string `json:",omitempty"`
+	// EnfDNS > 0: the last EnfDNS entries of Names.DNS are not requested in the CSR but added to
+	// the template by a certificate enforcer — EnfVia "authority": one injected with
+	// authority.WithX509Enforcers, "option": a provisioner.CertificateEnforcer sign option. The
+	// signed certificate carries all of Names, so the CA's answer must be the engine's on all of them.
+	EnfDNS int    `json:",omitempty"`
+	EnfVia string `json:",omitempty"`
+}
+
+// curEnf is what the authority-level enforcer of every embedded authority appends (per case).
+var curEnf []string
+
+type addDNS struct{ names *[]string }
+
+func (e addDNS) Enforce(crt *x509.Certificate) error {
+	crt.DNSNames = append(crt.DNSNames, (*e.names)...)
+	return nil
 }
 
 // spellTLS writes DNS/IP-only names as config dnsNames; IP literals are bracketed now and then
@@ -165,7 +183,8 @@ func build(k *Case) (*built, bool) {
 		}
 	}
 	b := &built{ints: certs[:n-1], root: certs[n-1], issKy: keys[0]}
-	a, err := authority.NewEmbedded(authority.WithX509RootCerts(b.root), authority.WithX509SignerChain(b.ints, b.issKy))
+	a, err := authority.NewEmbedded(authority.WithX509RootCerts(b.root), authority.WithX509SignerChain(b.ints, b.issKy),
+		authority.WithX509Enforcers(addDNS{&curEnf}))
 	if err != nil {
 		fmt.Fprintln(os.Stderr, "NewEmbedded:", err)
 		return nil, false
@@ -371,8 +390,13 @@ func (k *Case) run(b *built) (out string, ok bool) {
 	}
 
 	// through the CA: CSR -> Authority.Sign
+	reqDNS, enfDNS := k.Names.DNS, []string(nil)
+	if k.EnfDNS > 0 && k.EnfDNS <= len(reqDNS) {
+		reqDNS, enfDNS = reqDNS[:len(reqDNS)-k.EnfDNS], reqDNS[len(reqDNS)-k.EnfDNS:]
+		stats["sign:enforcer-"+k.EnfVia]++
+	}
 	csrDER, err := x509.CreateCertificateRequest(rand.Reader, &x509.CertificateRequest{
-		Subject: pkix.Name{CommonName: "C05 leaf"}, DNSNames: k.Names.DNS, IPAddresses: ips, EmailAddresses: k.Names.Emails, URIs: uris}, leafKey)
+		Subject: pkix.Name{CommonName: "C05 leaf"}, DNSNames: reqDNS, IPAddresses: ips, EmailAddresses: k.Names.Emails, URIs: uris}, leafKey)
 	if err != nil {
 		stats["sign:csr-not-creatable"]++
 		return "eng=" + eng + " vfy=" + vfy, true
@@ -386,12 +410,21 @@ func (k *Case) run(b *built) (out string, ok bool) {
 	data := x509util.NewTemplateData()
 	data.SetCommonName("C05 leaf")
 	data.SetSubjectAlternativeNames(sanList(csr)...)
-	chain, err := b.auth.SignWithContext(context.Background(), csr, provisioner.SignOptions{},
-		tplOption{data},
+	signOpts := []provisioner.SignOption{tplOption{data},
 		provisioner.CertificateModifierFunc(func(crt *x509.Certificate, _ provisioner.SignOptions) error {
 			crt.NotBefore, crt.NotAfter = t0, t1
 			return nil
-		}))
+		})}
+	curEnf = nil
+	if len(enfDNS) > 0 {
+		if k.EnfVia == "option" {
+			signOpts = append(signOpts, addDNS{&enfDNS})
+		} else {
+			curEnf = enfDNS
+		}
+	}
+	chain, err := b.auth.SignWithContext(context.Background(), csr, provisioner.SignOptions{}, signOpts...)
+	curEnf = nil
 	if err != nil {
 		stats["sign:refused"]++
 		if s := statusClass(err); s != eng {
@@ -439,6 +472,11 @@ func corner() []*Case {
 		{Levels: []gen.Level{{PURI: ex("example.com")}, {}}, Names: gen.Names{URIs: ex("https://.example.com/p")}},
 		{Levels: []gen.Level{{PDNS: ex("example.com")}, {}}, Names: gen.Names{DNS: ex(".www.example.com")}},
 		{Levels: []gen.Level{{PEm: ex("example.com")}, {}}, Names: gen.Names{Emails: ex("a@.example.com")}},
+		// a certificate enforcer adds a name after the request was validated by the provisioner
+		{Levels: []gen.Level{{PDNS: ex("example.org")}, {}}, Names: gen.Names{DNS: ex("web.example.org", "web.svc.cluster.local")}, EnfDNS: 1, EnfVia: "authority"},
+		{Levels: []gen.Level{{PDNS: ex("example.org")}, {}}, Names: gen.Names{DNS: ex("web.example.org", "web.svc.cluster.local")}, EnfDNS: 1, EnfVia: "option"},
+		{Levels: []gen.Level{{}, {XDNS: ex("bad.example.com")}}, Names: gen.Names{DNS: ex("x.bad.example.com")}, EnfDNS: 1, EnfVia: "authority"},
+		{Levels: []gen.Level{{PDNS: ex("example.org")}, {}}, Names: gen.Names{DNS: ex("web.example.org", "api.example.org")}, EnfDNS: 1, EnfVia: "option"},
 		// the CA's own server certificate: dnsNames spelled with bracketed IP literals
 		{Levels: []gen.Level{{PIP: []gen.Net{gen.NetsOK[0]}}, {}}, Names: gen.Names{DNS: ex("localhost"), IPs: ex("0a000001", "00000000000000000000000000000001")}, TLS: ex("localhost", "10.0.0.1", "[::1]")},
 		{Levels: []gen.Level{{PIP: []gen.Net{gen.NetsOK[0]}}, {}}, Names: gen.Names{IPs: ex("fd000000000000000000000000000001")}, TLS: ex("[fd00::1]")},
@@ -543,6 +581,16 @@ func main() {
 		}
 		for j := 0; j < *per; j++ {
 			kk := &Case{Levels: k.Levels, KeyID: k.KeyID, Names: gen.GenNames(rr.Fork(), true, k.Levels)}
+			if re := rr.Fork(); re.Chance(1, 4) {
+				// names a certificate enforcer adds on top of the requested ones
+				extra := gen.GenNames(re, true, k.Levels).DNS
+				if len(extra) == 0 {
+					extra = []string{gen.Domain(re)}
+				}
+				kk.Names.DNS = append(kk.Names.DNS, extra...)
+				kk.EnfDNS = len(extra)
+				kk.EnfVia = c.Pick(re, []string{"authority", "option"})
+			}
 			kk.TLS = spellTLS(rr.Fork(), &kk.Names)
 			emit(kk, b)
 		}
